@@ -28,6 +28,8 @@ import (
 	"github.com/bfenetworks/bfe/bfe_basic"
 	"github.com/bfenetworks/bfe/bfe_basic/action"
 	"github.com/bfenetworks/bfe/bfe_http"
+	"github.com/bfenetworks/bfe/bfe_modules/mod_header"
+	"github.com/bfenetworks/bfe/bfe_modules/mod_redirect"
 	"github.com/bfenetworks/bfe/bfe_modules/mod_rewrite"
 )
 
@@ -91,8 +93,145 @@ func classify(err error) string {
 	return "rej:other"
 }
 
+func classifyHR(err error) string {
+	m := err.Error()
+	switch {
+	case strings.Contains(m, "invalid cmd"):
+		return "rej:cmd"
+	case strings.Contains(m, "checkHeaderModParams"):
+		return "rej:mod"
+	case strings.Contains(m, "num of params"):
+		return "rej:arity"
+	case strings.Contains(m, "empty Params"):
+		return "rej:empty"
+	case strings.Contains(m, "no Params"):
+		return "rej:noparams"
+	case strings.Contains(m, "only http|https"):
+		return "rej:scheme"
+	case strings.Contains(m, "only support exclusive"):
+		return "rej:multi"
+	case strings.Contains(m, "not valid"):
+		return "rej:var"
+	}
+	return "rej:other"
+}
+
+func mkReq(host, path, rawq string) (*bfe_basic.Request, *bfe_http.Request, bool) {
+	target := path
+	if rawq != "" {
+		target += "?" + rawq
+	}
+	wire := "GET " + target + " HTTP/1.1\r\nHost: " + host + "\r\n\r\n"
+	hreq, err := bfe_http.ReadRequest(bfe_bufio.NewReader(strings.NewReader(wire)), 8192)
+	if err != nil {
+		return nil, nil, false
+	}
+	return bfe_basic.NewRequest(hreq, nil, nil, nil, nil), hreq, true
+}
+
+func renderHdr(h bfe_http.Header) string {
+	var names []string
+	for k := range h {
+		names = append(names, k)
+	}
+	sort.Strings(names)
+	var hs []string
+	for _, k := range names {
+		hs = append(hs, k+"="+strings.Join(h[k], "|"))
+	}
+	if len(hs) == 0 {
+		return "-"
+	}
+	return strings.Join(hs, ",")
+}
+
+// hd <req|rsp> <headers|-> <actions>   : mod_header through ActionFileListCheck, actionsConvert, HeaderActionsDo
+func execHd(f []string) string {
+	acts, ok := parseActs(f[3])
+	if !ok {
+		return "bad-op"
+	}
+	req, hreq, ok := mkReq("example.org", "/", "")
+	if !ok {
+		return "err:request"
+	}
+	h := hreq.Header
+	typ := mod_header.ReqHeader
+	if f[1] == "rsp" {
+		req.HttpResponse = &bfe_http.Response{Header: make(bfe_http.Header)}
+		h = req.HttpResponse.Header
+		typ = mod_header.RspHeader
+	} else if f[1] != "req" {
+		return "bad-op"
+	}
+	if f[2] != "-" {
+		for _, kv := range strings.Split(f[2], ",") {
+			i := strings.IndexByte(kv, '=')
+			if i < 0 {
+				return "bad-op"
+			}
+			h.Add(kv[:i], kv[i+1:])
+		}
+	}
+	var conf mod_header.ActionFileList
+	for _, a := range acts {
+		cmd := a.cmd
+		af := mod_header.ActionFile{Cmd: &cmd, Params: a.params}
+		conf = append(conf, af)
+	}
+	if err := mod_header.VerifC49Do(req, typ, conf); err != nil {
+		return classifyHR(err)
+	}
+	if f[1] == "rsp" {
+		return "ok hdr=" + renderHdr(req.HttpResponse.Header)
+	}
+	return "ok hdr=" + renderHdr(hreq.Header)
+}
+
+// rd <host> <path> <rawquery|-> <actions> : mod_redirect through ActionFileListCheck, actionsConvert, redirectActionsDo
+func execRd(f []string) string {
+	acts, ok := parseActs(f[4])
+	if !ok {
+		return "bad-op"
+	}
+	rawq := f[3]
+	if rawq == "-" {
+		rawq = ""
+	}
+	req, _, ok := mkReq(f[1], f[2], rawq)
+	if !ok {
+		return "err:request"
+	}
+	var conf mod_redirect.ActionFileList
+	for _, a := range acts {
+		cmd := a.cmd
+		af := mod_redirect.ActionFile{Cmd: &cmd}
+		if !a.noParams {
+			af.Params = a.params
+			if af.Params == nil {
+				af.Params = []string{}
+			}
+		}
+		conf = append(conf, af)
+	}
+	if err := mod_redirect.VerifC49Do(req, conf); err != nil {
+		return classifyHR(err)
+	}
+	u := req.Redirect.Url
+	if u == "" {
+		u = "-"
+	}
+	return "ok url=" + u
+}
+
 func exec(op string) string {
 	f := strings.Split(op, " ")
+	if len(f) == 4 && f[0] == "hd" {
+		return execHd(f)
+	}
+	if len(f) == 5 && f[0] == "rd" {
+		return execRd(f)
+	}
 	if len(f) != 6 {
 		return "bad-op"
 	}
@@ -320,7 +459,78 @@ func genMalformed(r *vh.Rand) string {
 	return genAction(r, false)
 }
 
+var hdNames = []string{"Referer", "referer", "Location", "X-A", "x-b", "X-Long-Name", "LOCATION"}
+var hdVals = []string{"1", "v", "http://a.com/p", "https://a.com/p?x=1", "a.com/p", "ftp://x/y", "http://a.com", "https://b.org/?a=1&b=2", "httpx://q"}
+
+func genHdAction(r *vh.Rand, side string) string {
+	switch r.Intn(11) {
+	case 0, 1:
+		return side + "_HEADER_SET:" + pick(r, hdNames) + "," + pick(r, hdVals)
+	case 2, 3:
+		return side + "_HEADER_ADD:" + pick(r, hdNames) + "," + pick(r, hdVals)
+	case 4, 5:
+		return side + "_HEADER_DEL:" + pick(r, hdNames)
+	case 6:
+		return side + "_HEADER_RENAME:" + pick(r, hdNames) + "," + pick(r, hdNames)
+	case 7, 8:
+		return side + "_HEADER_MOD:" + r.Pick("scheme_set", "SCHEME_SET") + "," + r.Pick("referer", "Location", "location", "Referer") + "," + r.Pick("http", "https")
+	case 9:
+		return side + "_HEADER_MOD:" + r.Pick("query_add", "QUERY_ADD") + "," + r.Pick("referer", "Location") + "," + pick(r, keyPool) + "," + pick(r, valPool)
+	}
+	// malformed
+	return r.Pick(side+"_HEADER_SET:X-A", side+"_HEADER_DEL:", side+"_HEADER_DEL:a,b", "req_header_set:X-A,1", side+"_HEADER_PUT:X-A,1",
+		side+"_HEADER_SET:X-A,~", side+"_HEADER_MOD:scheme_set,X-A,http", side+"_HEADER_MOD:scheme_set,referer,ftp",
+		side+"_HEADER_MOD:query_add,referer,k", side+"_HEADER_MOD:trim,referer,k", side+"_HEADER_ADD:~,1")
+}
+
+func genHd(r *vh.Rand) string {
+	side, typ := "REQ", "req"
+	if r.Bool() {
+		side, typ = "RSP", "rsp"
+	}
+	hdr := "-"
+	if !r.Chance(1, 5) {
+		var hs []string
+		for i := 0; i < 1+r.Intn(3); i++ {
+			hs = append(hs, pick(r, hdNames)+"="+pick(r, hdVals))
+		}
+		hdr = strings.Join(hs, ",")
+	}
+	n := 1
+	if r.Chance(1, 4) {
+		n = 2 + r.Intn(2)
+	}
+	var acts []string
+	for i := 0; i < n; i++ {
+		acts = append(acts, genHdAction(r, side))
+	}
+	return fmt.Sprintf("hd %s %s %s", typ, hdr, strings.Join(acts, ";"))
+}
+
+func genRd(r *vh.Rand) string {
+	var a string
+	switch r.Intn(9) {
+	case 0, 1:
+		a = "URL_SET:" + r.Pick("http://x.com/a", "/login", "https://y.org/?b=1", "x")
+	case 2, 3:
+		a = "URL_FROM_QUERY:" + pick(r, keyPool)
+	case 4, 5:
+		a = "URL_PREFIX_ADD:" + r.Pick("http://m.example.org", "/v2", "https://s.example.org/r?u=", "x")
+	case 6, 7:
+		a = "SCHEME_SET:" + r.Pick("https", "http", "HTTPS", "Http")
+	default:
+		a = r.Pick("SCHEME_SET:ftp", "URL_SET", "URL_SET:", "URL_SET:a,b", "url_set:x", "URL_GET:x", "URL_SET:/a;SCHEME_SET:https", "SCHEME_SET")
+	}
+	return fmt.Sprintf("rd %s %s %s %s", pick(r, hosts), pick(r, paths), genQuery(r), a)
+}
+
 func gen(r *vh.Rand) string {
+	switch r.Intn(10) {
+	case 0, 1:
+		return genHd(r)
+	case 2:
+		return genRd(r)
+	}
 	loader := "rw"
 	if r.Chance(1, 3) {
 		loader = "ba"
